@@ -37,8 +37,8 @@ theorem noArgs_assign {P1 P2 : List PCmd} (hna : NoArgs P1) (h2 : assignBranchLa
     simp only [patchCmd, Option.some.injEq, PCmd.instr.injEq] at hp
     rw [← hp.2.1]; exact hna mn' a' o' hc
 
-theorem noArgs_assembleProto {exc : List (String × Nat)} {n : Nat} {P P2 : List PCmd}
-    (h : assembleProto exc n P = .ok P2) : NoArgs P2 := by
+theorem noArgs_assembleProto {exc : List (String × Nat)} {n : Nat} {P P2 : List PCmd} {reserved : List Reg}
+    (h : assembleProto exc n P reserved = .ok P2) : NoArgs P2 := by
   obtain ⟨P1, h1, h2⟩ := assembleProto_inv h
   exact noArgs_assign (noArgs_rcAll (noArgs_makeArgs P) h1) h2
 
@@ -118,14 +118,16 @@ theorem buildAll_embed {T : Table} (hT : TableOk T) {P2 : List PCmd} {A : List I
           ih (fun mn a o hm => hna mn a o (List.mem_cons_of_mem _ hm)) h2]
 
 theorem assemble_inv {T : Table} {exc : List (String × Nat)} {n : Nat} {P : List PCmd} {A : List Instr}
-    (h : assemble T exc n P = .ok A) : ∃ P2, assembleProto exc n P = .ok P2 ∧ buildAll T P2 = .ok A := by
+    (h : assemble T exc n P reserved = .ok A) :
+    ∃ P2, assembleProto exc n P reserved = .ok P2 ∧ buildAll T P2 = .ok A := by
   simp only [assemble] at h
-  cases h1 : assembleProto exc n P with
+  cases h1 : assembleProto exc n P reserved with
   | error e => simp [h1] at h
   | ok P2 => simp only [h1] at h; exact ⟨P2, rfl, h⟩
 
 theorem assemble_embed {T : Table} (hT : TableOk T) {exc : List (String × Nat)} {n : Nat} {P : List PCmd}
-    {A : List Instr} (h : assemble T exc n P = .ok A) : assembleProto exc n P = .ok (A.map (embed T)) := by
+    {A : List Instr} {reserved : List Reg} (h : assemble T exc n P reserved = .ok A) :
+    assembleProto exc n P reserved = .ok (A.map (embed T)) := by
   obtain ⟨P2, h1, h2⟩ := assemble_inv h
   rw [buildAll_embed hT (noArgs_assembleProto h1) h2]; exact h1
 
